@@ -42,11 +42,11 @@ ASSUMPTIONS = [
     "problems are capped in size (ground actions / fluents) and plans in length (k=3 quick, 4 thorough)",
 ]
 SHARD_TIMEOUT = {"quick": 600, "thorough": 5400}
-N = {"quick": 1280, "thorough": 48000}
+N = {"quick": 640, "thorough": 12800}
 
 
 def plan(tier, seed):
-    return simple_plan(PROPERTY, tier, seed, N["quick"], N["thorough"], shards_quick=16, shards_thorough=16)
+    return simple_plan(PROPERTY, tier, seed, N["quick"], N["thorough"], shards_quick=8, shards_thorough=16)
 
 
 def run_shard(spec, res):
